@@ -28,7 +28,9 @@ EMPTY_FAILS = {("SIG", "signature"), ("KEY", "key"), ("CERT", "certificate"), ("
 def slots_of(rd):
     out = []
     for cls in type(rd).__mro__:
-        out.extend(getattr(cls, "__slots__", []))
+        for s in getattr(cls, "__slots__", []):
+            if s not in out:
+                out.append(s)
     return [s for s in out if s not in ("__dict__", "__weakref__", "rdclass", "rdtype", "rdcomment")]
 
 
@@ -113,8 +115,26 @@ def h05b(n: int, data: bytes, pick: int, b0: int, b1: int, relname: bool, use_or
     return text_roundtrip(c, t, rd, origin, relativize)
 
 
+# Boundary pools: used (as a symbolic selection) where a universal 32-bit field costs ~40 s of solver time per digit
+# count, and for fields whose renderer is not decimal (type mnemonics, YYYYMMDDHHMMSS times, Chaosnet octal addresses),
+# which CPython renders through C code (strftime, enum lookup) and therefore one concrete value per path.
+POOL = [0, 1, 9, 10, 99, 100, 255, 256, 257, 999, 1000, 9999, 10000, 32767, 32768, 65534, 65535, 65536, 99999, 100000,
+        86399, 86400, 999999999, 1000000000, 2**31 - 1, 2**31, 2**32 - 2, 2**32 - 1, 2**32, 2**48 - 1]
+NON_DECIMAL = ("type_covered", "expiration", "inception", "rrtype")
+
+
+def int_mode(name, field, top, tier):
+    if field in NON_DECIMAL or (name == "CH-A" and field == "address"):
+        return "pool"
+    if top > 65535 and tier == "quick":
+        return "pool"
+    return "all"
+
+
 def h05b_pre(n, data, pick, b0, b1, relname, use_origin, relativize):
     kind = S("kind")
+    if kind[0] == "int" and S("mode") == "pool" and n not in POOL:
+        return False
     z = (n == 0, len(data) == 0, pick == 0, b0 == 0 and b1 == 0 and not relname)
     if kind[0] == "int":
         if S("name") in ("SVCB", "HTTPS") and S("field") == "priority" and n == 0:
@@ -149,7 +169,9 @@ def h05b_shards(tier):
                     continue
                 for nlab in ((1, 2) if kind[0] == "name" else (2,)):
                     out.append({"c": c, "t": t, "name": name, "field": field, "kind": kind, "slen": 2 if tier == "quick" else 3, "nlab": nlab,
-                                "_timeout": 400 if tier == "quick" else 1800, "_path_timeout": 60})
+                                "mode": int_mode(name, field, kind[1], tier) if kind[0] == "int" else "all",
+                                # (a 5-digit render / parse identity costs z3 up to ~30 s per query on a loaded machine)
+                                "_timeout": 600 if tier == "quick" else 2400, "_path_timeout": 240 if kind[0] == "int" else 60})
     return out
 
 
@@ -276,7 +298,7 @@ HARNESSES = [
     Harness("H05b", h05b, h05b_pre, h05b_shards, kind="universal (ints, character-strings, names); finite selection for base64 / hex fields",
             encodes=["dns.rdata.from_text", "dns.rdata.Rdata.to_text", "dns.rdata._escapify", "dns.tokenizer.Tokenizer.get", "dns.tokenizer.Token.unescape",
                      "dns.tokenizer.Token.unescape_to_bytes", "dns.rdata._styled_base64ify", "dns.rdata._styled_hexify", "dns.name.Name.to_text", "dns.name.from_text"],
-            bound="for every specimen and every int / bytes / Name field: ints over the field's whole unsigned range, character-strings of <= 2 (3) fully symbolic octets, names of one or two symbolic one-octet labels (relative or under example.), base64/hex fields from a pool of 10 octet strings; origin and relativize symbolic",
+            bound="for every specimen and every int / bytes / Name field: ints over the field's whole unsigned range when it is <= 16 bits (thorough: also 32 / 48 bits) and otherwise a symbolic selection from a 30-value boundary pool (also for type mnemonics, signature times, Chaosnet addresses), character-strings of <= 2 (3) fully symbolic octets, names of one or two symbolic one-octet labels (relative or under example.), base64/hex fields from a pool of 10 octet strings; origin and relativize symbolic",
             stubs=["E2", "E3", "E4", "E5", "E6"], outside="longer strings; list-valued fields; IPv6 / float text (H05d pools)"),
     Harness("H05c", h05c, h05c_pre, h05c_shards, kind="finite selection",
             encodes=["dns.rdata.Rdata.to_generic", "dns.rdata.GenericRdata.to_styled_text", "dns.rdata.from_text", "dns.rdata.GenericRdata.from_text"],
